@@ -5,67 +5,67 @@ V = os.path.dirname(os.path.dirname(os.path.abspath(__file__)))
 
 CHECKS = {
  "C19": dict(level="exploration", design="§3 C19",
-   text="CLI-vs-library monitor driving the real `asca` binary (built from the working tree) in scratch directories: 480 (quick) / 12 000 (thorough) generated projects serialised per doc-cli.md with cosmetic variation (indentation, blank lines, CRLF, comments); the file written by `asca run -o` and the printed before => after pairs must equal asca::run on the model, `run -j` must agree, `conv asca` must produce the model as JSON, and on round-trip-safe projects `conv json` (explicit and default paths) followed by `conv asca` must reproduce it. Every invocation has stdin closed, a step budget (ASCA_VERIF_BUDGET) and a 20 s watchdog.",
+   text="CLI-vs-library monitor driving the real `asca` binary (built from the working tree) in scratch directories: 480 (quick) / 100 000 (thorough) generated projects serialised per doc-cli.md with cosmetic variation (indentation, blank lines, CRLF, comments, alias sections in either order, group names with non-ASCII letters, `@` and `#`, phrases, alias lines starting with a named escape, short or long flags, output to a file or into a directory); the file written by `asca run -o` and the printed before => after pairs must equal asca::run on the model, `run -j` must agree, `conv asca` must produce the model as JSON, and on round-trip-safe projects `conv json` (explicit and default paths) followed by `conv asca` must reproduce it. Every invocation has stdin closed, a step budget (ASCA_VERIF_BUDGET) and a 20 s watchdog.",
    note="the generator owns the model, so no second parser is needed; round-trip-safe = no blank/comment-only word lines, descriptions start with a non-empty line; a watchdog firing is inconclusive",
    technique="model-driven differential between the binary's files/stdout and the library, plus conversion round trips"),
  "C20": dict(level="exploration", design="§3 C20",
-   text="`seq` monitor driving the real binary: 400 (quick) / 8000 (thorough) generated project trees (1-4 tags in chains and forks, group names incl. non-ASCII cased letters, rule files with `!` and `~` filters incl. several names in non-file order and mixed case, word files, extra words on piped tags, deromaniser alias on a root); out/<tag>/*.wsca written by `asca seq -o -y` and by `-t <tag>` must equal my fold of asca::run over the configured entries; a cyclic or dangling variant of every tree (self-loop, 2- and 3-cycle, cycle outside the requested tag) must exit non-zero within the step budget and write nothing; `conv tag --recurse` exports are run through the library and compared with the tag's file.",
+   text="`seq` monitor driving the real binary: 400 (quick) / 80 000 (thorough) generated project trees (config files with comments, multi-line lists, trailing commas, CRLF, `$alias` before or after `%tag`, aliases with romanisers also on piped tags, entries written `x`, `./x`, `x.rsca`, `sub/x`; 1-4 tags in chains and forks, group names incl. non-ASCII cased letters, rule files with `!` and `~` filters incl. several names in non-file order and mixed case, word files, extra words on piped tags, deromaniser alias on a root); out/<tag>/*.wsca written by `asca seq -o -y` and by `-t <tag>` must equal my fold of asca::run over the configured entries, `-i` must leave one numbered file per entry holding the words after that entry; a cyclic or dangling variant of every tree (self-loop, 2- and 3-cycle, cycle outside the requested tag) must exit non-zero within the step budget and write nothing; `conv tag --recurse` exports are run through the library and compared with the tag's file.",
    note="the model of a tag is read off doc-cli.md / seq.rs: parent words, then word files separated by one empty line; each entry applied to the previous stage's rendered words with the tag's own alias; a stage that errors yields no file",
    technique="model-driven differential on the binary's output tree + bounded rejection of cyclic configurations"),
  "C12": dict(level="exploration", design="§3 C12",
-   text="Shorthand-vs-expansion monitor: 40 k (quick) / 2 M (thorough) descriptions, each printed as the shorthand and as its mechanical expansion - condensed comma rules vs the sequence of sub-rules, `_,X` vs `X_ , _X` mirrored, group letters vs the manual's matrices, optionals `(X,M:N)` (with pre- and multi-element post-context, in context or exception) vs the environment set of their repetitions (a third of them aimed at the retry path: broad repeated element, room for more repetitions, a rest that often matches in part), `A B > &` vs `A=1 B=2 > 2 1` - applied by the real interpreter to small words over {a k i t} in random syllabifications and to generated words; structural results (hook) must be equal or both fail (460 k applications quick).",
+   text="Shorthand-vs-expansion monitor: every group letter against the manual's matrix on every single segment the notation can write (8.8 k quick, 370 k thorough), and 40 k (quick) / 20 M (thorough) descriptions, each printed as the shorthand and as its mechanical expansion - condensed comma rules vs the sequence of sub-rules, `_,X` vs `X_ , _X` mirrored, group letters vs the manual's matrices, optionals `(X,M:N)` (with pre- and multi-element post-context, in context or exception) vs the environment set of their repetitions (a third of them aimed at the retry path: broad repeated element, room for more repetitions, a rest that often matches in part), `A B > &` vs `A=1 B=2 > 2 1`, the spellings `(X)` / `(X,1)` / `(X,0:1)` and `(X,N)` / `(X,0:N)` of one optional - applied by the real interpreter to small words over {a k i t} in random syllabifications and to generated words; structural results (hook) must be equal or both fail (460 k applications quick).",
    note="known finding KF-C12-1 (metathesis spellings differ when a long segment is swapped); the group table is copied from doc.md, not from the parser",
    technique="metamorphic (shorthand vs expansion) runtime monitor on the structural hook"),
  "C13": dict(level="exploration", design="§3 C13",
-   text="Respelling monitor on the public API: (1) exhaustive over the synonym table - every documented spelling of every feature, node and suprasegmental, plain and letter-spaced, x {input, context, output} x {+,-}, in the rule lexer and the alias lexer, against the canonical spelling on 24 words; (2) 40 k / 2 M generated rules printed plainly and with random documented spelling choices (arrow, `|` or `//`, `*` or `∅`, ellipsis form, bracket form, spaces in matrices, Greek/Latin and renamed alphas, renumbered variables, feature synonyms, trailing comment); (3) 40 k / 2 M words respelled with ' , : ; doubling ^ and the ASCII input aliases, incl. click clusters. Equal words or errors of the same kind are required.",
+   text="Respelling monitor on the public API: (1) exhaustive over the synonym table - every documented spelling of every feature, node and suprasegmental, plain and letter-spaced, x {input, context, output} x {+,-}, in the rule lexer and the alias lexer, against the canonical spelling on 24 words; (2) 40 k / 10 M generated rules printed plainly and with random documented spelling choices (arrow, `|` or `//`, `*` or `∅`, ellipsis form, bracket form, spaces in matrices, Greek/Latin and renamed alphas, renumbered variables, feature synonyms, trailing comment); (3) 40 k / 10 M words respelled with ' , : ; doubling, ^ or the tie below, and the ASCII input aliases, incl. click clusters. Equal words or errors of the same kind are required.",
    note="upper-case feature names are not tried (a leading capital inside a matrix is alpha syntax); doubling is only used after single-character segments",
    technique="metamorphic (respelling) runtime monitor, exhaustive over the synonym table + generated rules and words"),
  "C14": dict(level="exploration", design="§3 C14",
-   text="Tier-projection monitor: 300 k (quick) / 10 M (thorough) rules classified as segment-only (k matchers -> k matrices without length/stress/tone, or k plain ipa) or prosody-only (stress / tone setters, `$ > *`, `* > $`, `$X > &`, `X$ > &`), each with a generated context and exception from the full grammar, on generated words; the untouched tier of the hooked result (syllable count, per-syllable segment count, stress, tone - resp. the flat segment sequence) must equal that of the input.",
+   text="Tier-projection monitor: 300 k (quick) / 100 M (thorough) rules classified as segment-only (k matchers -> k matrices without length/stress/tone, or k plain ipa) or prosody-only (stress / tone setters, `$ > *`, `* > $` incl. a boundary inserted where one already is, `$X > &`, `X$ > &`), each with a generated context and exception from the full grammar, on generated words; the untouched tier of the hooked result (syllable count, per-syllable segment count, stress, tone - resp. the flat segment sequence) must equal that of the input.",
    note="for ipa outputs per-syllable counts are not compared (documented shortening of long segments)",
    technique="projection-equality runtime monitor on the structural hook"),
  "C15": dict(level="exploration", design="§3 C15",
-   text="Alias monitor: 100 k (quick) / 3 M (thorough) cases; romaniser sets (1-5 lines in random order: one or two plain segments or a one-feature matrix > fresh string, `+`string, `*`, optional `$` line) are checked against a reference printer applied to the structural result of the run WITHOUT aliases - which establishes at once that the underlying words are the same and that the printed form is the default rendering rewritten by the table; deromaniser sets (fresh string > X or X:[+long], and fresh string > a sequence of 2-3 segments some of them long or overlong, typed into the word as one item) are checked by encoding the word segment by segment and comparing run(R, encode(w), into=D) with run(R, w).",
+   text="Alias monitor: 100 k (quick) / 30 M (thorough) cases; romaniser sets (replacement strings with named, code-point and character escapes) (1-5 lines in random order: one or two plain segments or a one-feature matrix > fresh string, `+`string, `*`, optional `$` line) are checked against a reference printer applied to the structural result of the run WITHOUT aliases - which establishes at once that the underlying words are the same and that the printed form is the default rendering rewritten by the table; deromaniser sets (fresh string > X or X:[+long], and fresh string > a sequence of 2-3 segments some of them long or overlong, typed into the word as one item) are checked by encoding the word segment by segment and comparing run(R, encode(w), into=D) with run(R, w).",
    note="`+` lines are judged on base phones only (the program appends to the nearest base phone by design); alias lines the program rejects are counted, not judged",
    technique="reference-printer / encode-decode runtime monitor (structural hook + public API)"),
  "C17": dict(level="fault_enumeration", design="§3 C17",
-   text="Fault-injection monitor: 60 (quick) / 1500 (thorough) valid projects (rule groups with blank and comment lines, words, alias lines) x a catalogue of 30 rule-syntax faults, 16 rule-runtime faults (each with a word that makes it fire), 15 alias faults and 8 word faults planted at EVERY position in turn, each also on a line that carries precomposed letters which the program rewrites before lexing (52 k runs quick); run must return Err, the matching formatter is called under catch_unwind, and its text is parsed: the named group/line (alias line, word) must be the planted one, the quoted line the planted text, and every caret within [0, chars(line)+1). The evidence lists the error variants reached.",
+   text="Fault-injection monitor: 60 (quick) / 12 000 (thorough) valid projects (rule groups with blank and comment lines, a quarter of the groups without any line, words, alias lines) x a catalogue of 30 rule-syntax faults, 16 rule-runtime faults (each with a word that makes it fire), 15 alias faults and 8 word faults planted at EVERY position in turn, each also on a line that carries precomposed letters which the program rewrites before lexing (52 k runs quick); run must return Err, the matching formatter is called under catch_unwind, and its text is parsed: the named group/line (alias line, word) must be the planted one, the quoted line the planted text, and every caret within [0, chars(line)+1). The evidence lists the error variants reached.",
    note="error texts are only parsed for position, quoted line and caret columns; position-less errors (e.g. DeletionOnlySeg) and empty caret spans are counted, not judged",
    technique="fault injection at every position + offline check of the formatted error against the planted position"),
  "C01": dict(level="exploration", design="§3 C01",
-   text="Multi-process differential on the public API: 8 (quick) / 48 (thorough) fresh processes - each with its own hash seed, the run reports how many distinct base-phone table orders they had - evaluate the same ~120 k inputs chosen to hit every tie-break of the renderer (`[] > [±F]` on every k-th base and base+diacritic spelling, the same through `+` romanisers, harvested rules x harvested words, error inputs, printed traces, and 600 / 6000 rules that bind an alpha or variable in one input element and use it in a later one, on lists of short words over a small inventory); every batch is also run twice in a row, with the words reversed (call by call and as one reversed list), and as one list vs word by word. Any input whose result differs across processes, calls or orders is a violation.",
+   text="Multi-process differential on the public API: 8 (quick) / 48 (thorough) fresh processes - each with its own hash seed, the run reports how many distinct base-phone table orders they had - evaluate the same ~120 k inputs chosen to hit every tie-break of the renderer (`[] > [±F]` on every k-th base and base+diacritic spelling, the same through `+` romanisers, harvested rules x harvested words, error inputs, printed traces, and 600 / 6000 rules that bind an alpha or variable in one input element and use it in a later one, on lists of short words over a small inventory); the same failing rule text at five different (group, line) positions (whole error values are compared, positions included); every second process works through the batches backwards so that processes differ in call history as well as in hash seed; every batch is also run twice in a row, with the words reversed (call by call and as one reversed list), and as one list vs word by word. Any input whose result differs across processes, calls or orders is a violation.",
    note="hash seeds cannot be chosen, only sampled (distinct table orders observed are reported); thread-level concurrency is outside the property",
    technique="multi-process / repeated-call / permutation differential (offline comparison of per-process result logs)"),
  "C10": dict(level="exploration", design="§3 C10",
-   text="Staging differential on the public API: for 30 k (quick) / 1.5 M (thorough) sequences of 2-8 parsable rules x generated words (incl. americanist and alias letters, ASCII shorthands) and for the shipped Indo-European > Proto-Germanic pipeline (82 rules x 57 words), the single run is compared with the two-stage run at every split point with a renderable intermediate (~150 k split points quick) and with 3 random regroupings incl. empty groups; a failure is attributed (americanist input / C08 / C09 / other) so that root causes are not conflated.",
+   text="Staging differential on the public API: for 30 k (quick) / 5 M (thorough) sequences of 2-8 parsable rules (a quarter with blank and comment-only lines among them) x generated words (incl. americanist and alias letters, ASCII shorthands) and for the shipped Indo-European > Proto-Germanic pipeline (82 rules x 57 words), the single run is compared with the two-stage run at every split point with a renderable intermediate (~150 k split points quick) and with 3 random regroupings incl. empty groups; a failure is attributed (americanist input / C08 / C09 / other) so that root causes are not conflated.",
    note="known finding KF-C10-1 (americanist output convention is per input word, lost by staging); intermediate words containing U+FFFD are skipped as the property says",
    technique="metamorphic (staged vs single run, regrouping) runtime monitor with cause attribution"),
  "C09": dict(level="exploration", design="§3 C09",
-   text="Round-trip monitor through the hooks: every spelling base + <= 1 diacritic (quick; <= 2 in thorough, ~370 k) that parses to one segment, and the segments one feature / one place node away from them, are rendered and - unless the rendering contains U+FFFD - parsed back and compared as bundles; 150 k (quick) / 5 M (thorough) random words assembled from those segments with every stress / tone / length pattern, equal segments across boundaries and twin pairs (X next to X+diacritic); and 60 k / 2 M outputs of run on generated rules are fed back through the empty rule list and must be fixed points.",
+   text="Round-trip monitor through the hooks: every spelling base + <= 1 diacritic (quick; <= 2 in thorough, ~370 k) that parses to one segment, and the segments one feature / one place node away from them, are rendered and - unless the rendering contains U+FFFD - parsed back and compared as bundles; 150 k (quick) / 30 M (thorough) random words assembled from those segments with every stress / tone / length pattern, equal segments across boundaries and twin pairs (X next to X+diacritic); and 60 k / 10 M outputs of run on generated rules are fed back through the empty rule list and must be fixed points.",
    note="known findings KF-C09-1/2: a stop or nasal next to a click consonant is ambiguous in the notation itself; structural comparison through the hook, public API for the fixed-point part",
    technique="render/parse round-trip runtime monitor (structural hook + public API fixed point)"),
  "C06": dict(level="exploration", design="§3 C06",
-   text="Planted-absent-literal monitor: 300 k (quick) / 20 M (thorough) rules from the full-grammar generator (all four rule types, sets, optionals, ellipses, structures, variables, alphas, environment sets, condensed rules) get a reserved segment that no generated word contains planted as a mandatory element of every input alternative (insertion: of the context); whenever the real interpreter returns Ok the structural word (hook) must equal the input. A third of the words are instantiated from the rule as it was before the plant went in (so that everything but the plant matches), a quarter are built from recurring syllables (so that back-references match), the rest are random. The run also checks that the plant is what stops the rule (the unplanted rule changes the word in ~19 % of the cases, which is what is counted as non-trivial). Blank and comment-only lines are checked too.",
+   text="Planted-absent-literal monitor: 300 k (quick) / 80 M (thorough) rules from the full-grammar generator (all four rule types, sets, optionals, ellipses, structures, variables, alphas, environment sets, condensed rules) get a reserved segment that no generated word contains planted as a mandatory element of every input alternative (insertion: of the context); whenever the real interpreter returns Ok the structural word (hook) must equal the input. A third of the words are instantiated from the rule as it was before the plant went in (so that everything but the plant matches), a quarter are built from recurring syllables (so that back-references match), the rest are random. The run also checks that the plant is what stops the rule (the unplanted rule changes the word in ~19 % of the cases, which is what is counted as non-trivial). Blank and comment-only lines are checked too.",
    note="the plant is placed at the top level of the input / context, never inside a set or optional, so it is mandatory by construction; panics and budget exhaustion are recorded for C02, not judged here",
    technique="invariant (output == input) runtime monitor over generated rules with a planted mandatory absent literal"),
  "C07": dict(level="exploration", design="§3 C07",
-   text="Capture-identity monitor (200 k quick / 10 M thorough cases): identity rules through variables (`X1=1..Xk=k > 1..k`, k<=3, matrices, groups, [], %, structures, with generated environments) and through alphas (`[αF] > [αF]` for all features, nodes, length and stress, on matrices, groups and %) must leave the structural word unchanged; variables used in a context are checked against a neighbour-comparison reference: `A > B / X=1 _ 1` fires exactly between identical bundles, `% > [+stress] / %=1 _ 1` exactly between identical syllables, haplology `%=1 > * / 1_` deletes exactly syllables identical to their predecessor.",
+   text="Capture-identity monitor (200 k quick / 60 M thorough cases): identity rules through variables (`X1=1..Xk=k > 1..k`, k<=3, matrices, groups, [], %, structures, with generated environments; binders in a context are %, `⟨...⟩` or `⟨..⟩` and the recurring syllables carry tones and secondary stress) and through alphas (`[αF] > [αF]` for all features, nodes, length and stress, on matrices, groups and %) must leave the structural word unchanged; variables used in a context are checked against a neighbour-comparison reference: `A > B / X=1 _ 1` fires exactly between identical bundles, `% > [+stress] / %=1 _ 1` exactly between identical syllables, haplology `%=1 > * / 1_` deletes exactly syllables identical to their predecessor.",
    note="known finding KF-C07-1 (stress alpha is one bit); X as a predicate in family (iii) is evaluated with the real matcher on a one-segment word, which C04 validates independently",
    technique="identity / reference-comparison runtime monitor on the structural hook"),
  "C08": dict(level="exploration", design="§3 C08",
-   text="Invariant walker on the hooked word after EVERY rule group: 300 k (quick) / 20 M (thorough) sequences of 1-6 rules (templates that delete, move and insert boundaries, syllables and structures, merge tones, remove and add place nodes; harvested rules; full-grammar rules) on generated words; checks >= 1 syllable, no empty syllable, tone <= 4 non-zero digits, no stray root/laryngeal bits, place never Some(0), no feature bits under an absent sub-node.",
+   text="Invariant walker on the hooked word after EVERY rule group: 300 k (quick) / 80 M (thorough) sequences of 1-6 rules (templates that delete, move and insert boundaries, syllables and structures, merge tones, remove and add place nodes; harvested rules; full-grammar rules) on generated words; checks >= 1 syllable, no empty syllable, tone <= 4 non-zero digits, no stray root/laryngeal bits, place never Some(0), no feature bits under an absent sub-node.",
    note="invariants are evaluated on the internal Word through the hook; well-formedness of a place value as in C18",
    technique="structural invariant monitor at a hook after every rule group"),
  "C11": dict(level="exploration", design="§3 C11",
-   text="Differential monitor on the public API: for 60 k (quick) / 3 M (thorough) generated (rule list, word list) pairs, the result of run on the list is compared with run on every line alone (length, order, content), on a permutation / sub-list, and for multi-word lines with the single-space join of the per-word results; when lines fail, the list must fail with the error kind of the first failing line (parse-phase failures first). About a third of the generated lists contain failing lines.",
+   text="Differential monitor on the public API: for 60 k (quick) / 12 M (thorough) generated (rule list, word list) pairs - the rules as one group or one group each, now and then with a romaniser that prints a vowel as nothing - the result of run on the list is compared with run on every line alone (length, order, content), on a permutation / sub-list, and for multi-word lines with the single-space join of the per-word results; when lines fail, the list must fail with the error kind of the first failing line (parse-phase failures first). About a third of the generated lists contain failing lines.",
    note="public API only; error texts are never compared, only kinds; lists in which rule-syntax and word-syntax failures are mixed are counted, not judged",
    technique="metamorphic (list vs per-line, permutation) runtime monitor over generated workloads"),
  "C16": dict(level="exploration", design="§3 C16",
-   text="Sequence-equation monitor on the public API: trace_changes / get_trace_string on 50 k (quick) / 2 M (thorough) generated (rule groups, phrase) pairs are checked against plain runs of every prefix G0..Gi: indices strictly increasing, every reported state equals the prefix run, every changing group is reported, the last state equals run(G), the printed trace shows the same sequence with the groups' names, and both fail when a rule errors.",
+   text="Sequence-equation monitor on the public API: trace_changes / get_trace_string on 50 k (quick) / 6 M (thorough) generated (rule groups, phrase) pairs (a sixth with a deromaniser list whose strings the phrase uses) are checked against plain runs of every prefix G0..Gi: indices strictly increasing, every reported state equals the prefix run, every changing group is reported, the last state equals run(G), the printed trace shows the same sequence with the groups' names, and both fail when a rule errors.",
    note="public API plus render_word for Change.after; a reported group whose rendering equals the previous one is counted, not judged (the renderer is not injective)",
    technique="trace-vs-prefix-run differential monitor over generated workloads"),
  "C02": dict(level="exploration", design="§3 C02",
-   text="Isolation monitor: every call of run / trace_changes / get_trace_string runs in a worker process under catch_unwind and a step budget (tick hook at 115 loop heads) proportional to |words| x |rules|; the worker publishes the index of the case it is about to run so a case that kills the process is identified and the shard restarted (conservation: assigned = completed + killed). Workload = full-grammar rules, token mutants of the 470 harvested rules, numeric extremes, character noise for rules, words and alias lines, degenerate words; 400 k cases x 2 build profiles (checked = overflow + debug assertions; release) in the quick tier, 12 M x 2 in thorough. Budget exhaustion is retried at 2x (returns = slow, counted, not a violation; exhausted again = hang) and, for rules with ellipses/optionals whose hot tick sites are the backtracking matcher's, at 64x (superlinear, reported separately from hang). A UB check of the checked build that aborts the process is reported as a sanitizer violation. Thorough adds a slice of the workload (incl. every named alias escape, the from_u32_unchecked site) under Miri.",
+   text="Isolation monitor: every call of run / trace_changes / get_trace_string runs in a worker process under catch_unwind and a step budget (tick hook at 115 loop heads) proportional to |words| x |rules|; the worker publishes the index of the case it is about to run so a case that kills the process is identified and the shard restarted (conservation: assigned = completed + killed). Workload = full-grammar rules, token mutants of the 470 harvested rules, numeric extremes, character noise for rules, words and alias lines, degenerate words; what the other properties' monitors generate (their templates, identity rules, shorthands, tier rules, rule lists, planted rules with words instantiated from them); 400 k cases x 2 build profiles (checked = overflow + debug assertions; release) in the quick tier, 30 M x 2 in thorough. Budget exhaustion is retried at 2x (returns = slow, counted, not a violation; exhausted again = hang) and, for rules with ellipses/optionals whose hot tick sites are the backtracking matcher's, at 64x (superlinear, reported separately from hang). A UB check of the checked build that aborts the process is reported as a sanitizer violation. Thorough adds a slice of the workload (incl. every named alias escape, the from_u32_unchecked site) under Miri.",
    note="step budget constants calibrated on the unchanged tree (largest observed ticks/budget ratio is reported); wall-clock only as a watchdog whose firing is inconclusive; panics are keyed by (innermost function of the code under test, message class) from the symbolised backtrace",
    technique="runtime isolation monitor (catch_unwind + step-budget hook + process-death detection) over generated hostile workloads, two build profiles (checked = overflow/debug-assert/UB-check sanitizer build, release), Miri slice in thorough"),
  "C03": dict(level="exploration", design="§3 C03",
